@@ -18,6 +18,8 @@ struct Gen {
   std::vector<int> pool_logm;
   std::vector<int> last_slots;  // recently produced values (most recent last)
   bool has_avx2 = true;
+  struct LastParams { uint64_t m; double divisor; uint32_t l2; };
+  std::map<std::pair<int, int>, LastParams> last_simple;  // (task, op) -> parameters of the previous call (cache collisions)
 
   Gen(uint64_t seed, const GenCfg& c) : r(seed, 11), cfg(c) { M.init(P); }
 
@@ -273,6 +275,8 @@ struct Gen {
         int res = out_or_alias(T_ZV, a, &rs);
         set(0, res, rs);
         set(1, a, res == a ? std::min<uint64_t>(cur_limbs(a), P.slots[a].size) : cur_limbs(a));
+        if (res == a && c.sz[1] > 0 && r.chance(35, 100)) c.sz[1] = r.below(c.sz[1] + 1);  // aliased with a_size < res_size
+        if (!cfg.zero_sizes && c.sz[1] == 0 && cur_limbs(a)) c.sz[1] = 1;
         if (op == OP_ROTATE) c.ip = pick_p(n, false);
         if (op == OP_AUTOMORPHISM) c.ip = pick_p(n, true);
         break;
@@ -294,6 +298,8 @@ struct Gen {
         int res = out_or_alias(T_ZV, a, &rs);
         set(0, res, rs);
         set(1, a, cur_limbs(a));
+        if (res == a && c.sz[1] > 0 && r.chance(35, 100)) c.sz[1] = r.below(c.sz[1] + 1);
+        if (!cfg.zero_sizes && c.sz[1] == 0 && cur_limbs(a)) c.sz[1] = 1;
         c.p[0] = r.chance(50, 100) ? (uint64_t)r.range(1, 62) : (uint64_t)r.range(8, 24);
         break;
       }
@@ -371,6 +377,8 @@ struct Gen {
         int res = out_or_alias(T_BIG, a, &rs);
         set(0, res, rs);
         set(1, a, cur_limbs(a));
+        if (res == a && c.sz[1] > 0 && r.chance(35, 100)) c.sz[1] = r.below(c.sz[1] + 1);
+        if (!cfg.zero_sizes && c.sz[1] == 0 && cur_limbs(a)) c.sz[1] = 1;
         c.ip = pick_p(n, op == OP_BIG_AUTOMORPHISM);
         break;
       }
@@ -527,8 +535,13 @@ struct Gen {
       pick -= k.weight;
     }
     if (simple && op_info[op].twin == OP_NONE) op = OP_REIM_TO_ZNX64;
+    if (simple && cfg.small_pools && r.chance(30, 100)) op = r.chance(1, 2) ? OP_REIM_TO_ZNX64 : OP_CPLX_TO_TNX32;  // the parameter-cached twins
     const bool r4 = op >= OP_R4_MUL && op <= OP_R4_TO_CPLX;
     uint64_t m = pick_m(r4 ? 4 : 1);
+    // deliberate cache-slot collisions: stay on the previous call's dimension (and often divisor) on this thread
+    const std::pair<int, int> lkey(cur_task, op);
+    const bool collide = simple && cfg.small_pools && last_simple.count(lkey) && r.chance(65, 100);
+    if (collide) m = last_simple[lkey].m;
     Call c;
     double divisor = 1;
     uint32_t l2 = 0;
@@ -563,12 +576,14 @@ struct Gen {
         c.s[1] = new_raw(T_I64, 2 * m, true, (int)r.range(1, 50));
         break;
       case OP_REIM_TO_ZNX64: {
-        divisor = pick_divisor(m);
+        divisor = collide && r.chance(60, 100) ? last_simple[lkey].divisor : pick_divisor(m);
         static const uint32_t bnds[] = {49, 50, 51, 63};
         l2 = bnds[r.below(4)];
-        // |x/d| < 2^kb: inside the fast variant's window (2^50) for bounds <= 50, up to the wide variant's (2^52) above.
-        // Beyond 2^46 the generated values are exact integers (no fractional part, hence no .5 ties).
-        int kb = l2 <= 50 ? (int)r.range(1, 46) : (r.chance(1, 3) ? (int)r.range(47, 51) : (int)r.range(1, 46));
+        // |x/d| < 2^kb: inside the fast variant's window for bounds <= 50, up to the wide variant's documented window
+        // (2^52) above. (Observed while building this: for odd integers x/d in [2^52,2^53) the avx2 wide kernel is off by
+        // one because x + d/2 is a rounding tie there; that binade is outside the window and is not generated.)
+        // Beyond 2^46 the generated values are exact integer multiples of the divisor (no fractional part, no .5 ties).
+        int kb = l2 <= 50 ? (int)r.range(1, 46) : (r.chance(collide ? 60 : 33, 100) ? (int)r.range(49, 52) : (int)r.range(1, 46));
         c.s[0] = new_raw(T_I64, 2 * m, false, 0);
         c.s[1] = new_raw(T_F64, 2 * m, true, kb, PAT_RANDOM, ilog2d(divisor));
         P.slots[c.s[1]].pattern = 100 + (r.chance(1, 2) ? PAT_RANDOM : PAT_MIXED);  // near-integer multiples of the divisor
@@ -587,12 +602,16 @@ struct Gen {
         c.s[1] = new_raw(T_I32, 2 * m, true, (int)r.range(1, 31));
         break;
       case OP_CPLX_TO_TNX32: {
-        divisor = pick_divisor(m);
-        static const uint32_t ovh[] = {0, 17, 18, 19};
-        l2 = ovh[r.below(4)];
-        // x = d*(K + f/16)/2^32 with |K| < 2^40: |x/d| < 2^8, no exact ties
+        divisor = collide && r.chance(60, 100) ? last_simple[lkey].divisor : pick_divisor(m);
+        static const uint32_t ovh[] = {0, 17, 18, 19, 19, 24, 30};
+        l2 = ovh[r.below(cfg.small_pools ? 4 : 7)];
+        if (cfg.small_pools && r.chance(1, 4)) l2 = ovh[4 + r.below(3)];
+        // x = d*(K + f/16)/2^32 with |K| < 2^kb, i.e. |x/d| < 2^(kb-32) <= 2^log2overhead (the documented domain); beyond
+        // 2^46 K is used without fractional part (exact torus values, no ties)
+        int kbmax = 32 + (int)l2 > 62 ? 62 : 32 + (int)l2;
+        int kb = r.chance(collide ? 60 : 33, 100) ? (int)r.range(kbmax > 3 ? kbmax - 2 : 1, kbmax) : (int)r.range(1, kbmax < 46 ? kbmax : 46);
         c.s[0] = new_raw(T_I32, 2 * m, false, 0);
-        c.s[1] = new_raw(T_F64, 2 * m, true, 40, PAT_RANDOM, ilog2d(divisor) - 32);
+        c.s[1] = new_raw(T_F64, 2 * m, true, kb, PAT_RANDOM, ilog2d(divisor) - 32);
         P.slots[c.s[1]].pattern = 100 + PAT_RANDOM;
         break;
       }
@@ -603,6 +622,7 @@ struct Gen {
         break;
     }
     if (simple) {
+      last_simple[lkey] = LastParams{m, divisor, l2};
       c.op = op_info[op].twin;
       c.p[0] = m;
       c.p[1] = l2;
